@@ -14,6 +14,7 @@ CFG = {'assumptions': ['f64 inputs cross the boundary as bit patterns and are de
                 'GeoProofs/Lemmas/SMLXLevel.lean', 'GeoProofs/Lemmas/SMLXFaces.lean',
                 'GeoProofs/Lemmas/SMLXSign.lean', 'GeoProofs/Lemmas/SMLXTurn.lean',
                 'GeoProofs/Lemmas/SMLXPivotSide.lean', 'GeoProofs/Lemmas/SMLXMain.lean',
+                'GeoProofs/Lemmas/SMLXSegs.lean', 'GeoProofs/Lemmas/SMLXSimpleEq.lean',
                 'GeoProofs/Lemmas/WINDJordan.lean', 'GeoProofs/Lemmas/WINDLink.lean',
                 'GeoProofs/Lemmas/C12QCross.lean', 'GeoProofs/Lemmas/C12QSimple.lean'],
  'translator': True,
@@ -30,13 +31,12 @@ CFG = {'assumptions': ['f64 inputs cross the boundary as bit patterns and are de
          'triv (zero area geometry, open/short ring, no simple ring to orient) are not counted',
  'trusted_base': ['the exactness bound of regime G (all coordinates integers, sum over rings of n*2*B^2 <= 2^52 '
                   'after the shift) is evaluated per case by the driver, not proved',
-                  'the decision "simple ring" (domain of the winding clauses) exists twice: simpleRing '
-                  '(GeoModel/SimpleRing.lean, orientation tests; what the driver branches on) and ringSimple '
-                  '(GeoModel/Valid.lean, via line_intersection; what windingOrder_eq_sign_area_simple and the other '
-                  '*_simple theorems are stated for). Their equivalence is not proved; the driver decides every ring '
-                  'that reaches it with both and answers ERR (machinery broken) on a disagreement (none in the '
-                  'streams). That winding_order = sign of the exact area on ringSimple rings is now a theorem, no '
-                  'longer an assumption',
+                  'the decision "simple ring" (domain of the winding clauses) is the Lean definition simpleRing '
+                  '(GeoModel/SimpleRing.lean, orientation tests; what the driver branches on); it is proved equal, as a '
+                  'Boolean function, to ringSimple (GeoModel/Valid.lean, via line_intersection; the definition the '
+                  'lemmas use): simpleRing_eq_ringSimple. That winding_order = sign of the exact area on such rings '
+                  'is a theorem (windingOrder_eq_sign_area), no longer an assumption; what stays trusted is that '
+                  'these definitions say what "simple closed ring" means',
                   'the rounding tolerance of regime R is a stated bound, not a theorem (the proved bound '
                   'area_rounding_error is the worst-case gamma_(n+3) * sum of product magnitudes under the standard '
                   'model without underflow; it is quadratic in n where the tolerance is linear)',
@@ -51,7 +51,7 @@ MANIFEST = {'note': 'Trusted: Lean 4.33 kernel (axioms propext, Classical.choice
          'hand-written model; the model is tied to the code by running both on the same inputs each run. '
          'Floating point: bit-exact agreement is demanded on integer inputs within a per-case exactness '
          'bound, a stated rounding tolerance elsewhere. Winding = sign of area is proved for every simple '
-         'ring (ringSimple; the second definition simpleRing used by the driver is compared with it per case). One defect repaired (Triangle::signed_area lacked the conditioning shift).',
+         'ring (simpleRing, the definition the driver uses, proved equal to ringSimple of GeoModel/Valid.lean). One defect repaired (Triangle::signed_area lacked the conditioning shift).',
  'technique': 'Lean 4 proof (telescoping/algebraic identities over exact rationals, list induction, mutual '
               'induction over the geometry tree) + model/implementation correspondence on generated rings, '
               'polygons and collections',
@@ -74,7 +74,10 @@ MANIFEST = {'note': 'Trusted: Lean 4.33 kernel (axioms propext, Classical.choice
          'shows the hypothesis is needed), orient yields the requested windings and is idempotent. '
          'FOR EVERY SIMPLE RING (ringSimple of GeoModel/Valid.lean: closed, >= 3 distinct vertices after merging '
          'repeated consecutive coordinates, edges meet only in the common vertex of consecutive ones; no other '
-         'hypothesis, repeated coordinates allowed): windingOrder_eq_sign_area_simple - winding_order is '
+         'hypothesis, repeated coordinates allowed; simpleRing_eq_ringSimple: the same Boolean function as the '
+         'simpleRing of GeoModel/SimpleRing.lean by which the driver decides the domain - segsMeet <-> the closed '
+         'segments share a point, foldsBack <-> consecutive segments overlap): windingOrder_eq_sign_area (stated '
+         'for simpleRing) / windingOrder_eq_sign_area_simple (for ringSimple) - winding_order is '
          'CounterClockwise iff twice_signed_ring_area > 0, Clockwise iff < 0, never None, and the exact area is '
          'never 0 (proof: side constant L of the ring from the Jordan-curve lemmas; the shoelace sum cut into '
          'horizontal slabs is sum 2 h F(mid level), F = signed sum of crossing abscissae, and summation by parts '
